@@ -1,8 +1,27 @@
 package host
 
 import (
+	"bytes"
+	"fmt"
+
+	"github.com/teleport-network/teleport/x/xibc/exported"
 	rt "github.com/teleport-network/teleport/zzverifrt"
 )
+
+// hgt: a height (the client types package cannot be imported from here)
+type hgt struct{ r, h uint64 }
+
+func (x hgt) IsZero() bool                 { return x.r == 0 && x.h == 0 }
+func (x hgt) LT(o exported.Height) bool    { return x.r < o.GetRevisionNumber() || x.r == o.GetRevisionNumber() && x.h < o.GetRevisionHeight() }
+func (x hgt) LTE(o exported.Height) bool   { return x.LT(o) || x.EQ(o) }
+func (x hgt) EQ(o exported.Height) bool    { return x.r == o.GetRevisionNumber() && x.h == o.GetRevisionHeight() }
+func (x hgt) GT(o exported.Height) bool    { return !x.LTE(o) }
+func (x hgt) GTE(o exported.Height) bool   { return !x.LT(o) }
+func (x hgt) GetRevisionNumber() uint64    { return x.r }
+func (x hgt) GetRevisionHeight() uint64    { return x.h }
+func (x hgt) Increment() exported.Height   { return hgt{x.r, x.h + 1} }
+func (x hgt) Decrement() (exported.Height, bool) { return hgt{x.r, x.h - 1}, x.h > 0 }
+func (x hgt) String() string               { return fmt.Sprintf("%d-%d", x.r, x.h) }
 
 func validName(tag string) string {
 	hi := 3 + rt.Tier()
@@ -60,4 +79,22 @@ func VerifC19ParsePath() {
 	ps, pd, err := ParsePath(string(keyOf(k, s, d, q)))
 	rt.Reach("parsed")
 	rt.Assert("J2-parse-path", err == nil && ps == s && pd == d)
+}
+
+// VerifC19KeysHeldTogether: a key stays what it was when another key is computed afterwards (callers keep keys across
+// calls: stores that retain the slice, iteration entries whose value is another key): the key of h1, kept while the key of h2
+// is built, is unchanged, and the two differ whenever the heights differ - also for the packet keys.
+func VerifC19KeysHeldTogether() {
+	h1 := hgt{rt.U64("revision1"), rt.U64("height1")}
+	h2 := hgt{rt.U64("revision2"), rt.U64("height2")}
+	k1 := ConsensusStateKey(h1)
+	copy1 := append([]byte(nil), k1...)
+	k2 := ConsensusStateKey(h2)
+	rt.Reach("both-keys-built")
+	rt.Assert("J6-a-held-key-is-not-changed-by-a-later-call", bytes.Equal(k1, copy1))
+	rt.Assert("J6-keys-held-together-differ", h1 == h2 || !bytes.Equal(k1, k2))
+	f1 := FullConsensusStateKey("chain-a", h1)
+	fcopy := append([]byte(nil), f1...)
+	f2 := FullConsensusStateKey("chain-a", h2)
+	rt.Assert("J6-a-held-full-key-is-not-changed-by-a-later-call", bytes.Equal(f1, fcopy) && (h1 == h2 || !bytes.Equal(f1, f2)))
 }
